@@ -23,7 +23,7 @@ CLAIMS = {
             'Decides, for all paths: unauthenticated chunk loads sit only under the DataEvenUnauthenticated arm of the mode switch; the default '
             'mode is OnlyAuthenticatedData and only the two setters change it; the CLI enables the unauthenticated mode only on the true edge of '
             'the --allow-unauthenticated-data flag (declared SetTrue); the constructor and the wrong-tag arm are checked for mode respect and a '
-            'stop latch (two genuine defects recorded as known findings). Byte-level prefix relations are not decided.'),
+            'stop latch (the missing latch was repaired in /repo with a fix: commit; the unauthenticated load of chunk 0 by the constructor is the one recorded known finding). Byte-level prefix relations are not decided.'),
     'C07': (TECH_RULES, '§4 C07',
             'Decides provenance and shape for all paths: key/nonce of EncryptionConfig and the ephemeral scalar must-derive from an OS-seeded '
             'ChaCha20Rng; no seeded generator constructor exists in the library crates; every byte transfer of the encryption writer to its inner '
